@@ -520,9 +520,10 @@ def c_constraint_mode(c, place, toggles, how="plain"):
           ["vsc.types.type_base.to_expr", "vsc.types.expr.__getattr__", "vsc.rand_obj._randobj.__call__", "vsc.attrs.rand_attr", "vsc.attrs.attr",
            "vsc.model.rand_info_builder.RandInfoBuilder.visit_composite_field", "vsc.model.expr_indexed_field_ref_model.ExprIndexedFieldRefModel.build",
            "vsc.types.list_t.append"],
-          lambda tier, seed: [(d,) for d in ("siblings", "nonrand_sub", "depth3", "obj_list", "shared_class", "poly_list")], kind="bounded",
+          lambda tier, seed: [(d,) for d in ("siblings", "nonrand_sub", "depth3", "obj_list", "shared_class", "poly_list", "obj_list_nested")], kind="bounded",
           bound="object trees of depth <= 3, two sub-objects of one class, a non-random sub-object, a list of 3 objects (repeated calls, refilled by clear+append, element "
-                "assignment and whole-list assignment); cross-level constraints pinned to distinct values per path")
+                "assignment and whole-list assignment), a list of objects holding nested objects (index, iterator and constant-index "
+                "paths of two attributes); cross-level constraints pinned to distinct values per path")
 def c_hierarchy(c, shape):
     import vsc
 
@@ -634,6 +635,62 @@ def c_hierarchy(c, shape):
             library_only(e)
             c.check("C08: list[i].field denotes the field of that name of the element at index i, also when the element is of a "
                     "derived class", False, info="%s: %s" % (type(e).__name__, e))
+    elif shape == "obj_list_nested":
+        # two or more attributes behind a list subscript: items[i].leaf.x
+        @vsc.randobj
+        class Leaf2(object):
+            def __init__(self):
+                self.x = vsc.rand_bit_t(6)
+                self.y = vsc.rand_bit_t(6)
+
+        @vsc.randobj
+        class Item2(object):
+            def __init__(self):
+                self.leaf = vsc.rand_attr(Leaf2())
+                self.k = vsc.rand_bit_t(6)
+
+        @vsc.randobj
+        class P(object):
+            def __init__(self):
+                self.items = vsc.rand_list_t(Item2())
+                for _ in range(3):
+                    self.items.append(Item2())
+
+            @vsc.constraint
+            def by_index(self):
+                with vsc.foreach(self.items, idx=True) as i:
+                    self.items[i].leaf.x == i + 3
+                    self.items[i].k == self.items[i].leaf.x + 1
+
+            @vsc.constraint
+            def by_iterator(self):
+                with vsc.foreach(self.items) as it:
+                    it.leaf.y == it.leaf.x + 10
+
+            @vsc.constraint
+            def by_constant(self):
+                self.items[1].leaf.y > self.items[0].leaf.y
+        o = P()
+
+        def observe(tag):
+            o.randomize()
+            got = [(int(e.leaf.x), int(e.leaf.y), int(e.k)) for e in o.items]
+            c.check("C08: a path of several attributes behind a list subscript (items[i].leaf.x, it.leaf.y, items[1].leaf.y) denotes "
+                    "the field of the element at that index at the time of the call",
+                    got == [(3, 13, 4), (4, 14, 5), (5, 15, 6)], info="%s %r" % (tag, got))
+        try:
+            observe("first call")
+            observe("second call")
+            o.items[1] = Item2()
+            observe("after replacing element 1")
+            o.items.clear()
+            for _ in range(3):
+                o.items.append(Item2())
+            observe("after clear + append")
+        except Exception as e:
+            library_only(e)
+            c.check("C08: a path of several attributes behind a list subscript (items[i].leaf.x, it.leaf.y, items[1].leaf.y) denotes "
+                    "the field of the element at that index at the time of the call", False, info="%s: %s" % (type(e).__name__, e))
     elif shape == "obj_list":
         @vsc.randobj
         class P(object):
